@@ -200,6 +200,8 @@ struct Ent {
     depth: isize,
     null: bool,
     tag: u16,
+    children: bool,
+    has_sib: bool,
     text0: String, // text with depth 0
 }
 
@@ -230,6 +232,8 @@ fn style_raw(h: &UnitHeader<R>, tbl: &Abbreviations) -> (Vec<Ent>, Option<gimli:
                     depth: entry.depth(),
                     null: entry.is_null(),
                     tag: entry.tag().0,
+                    children: entry.has_children(),
+                    has_sib: entry.attr(gimli::DW_AT_sibling).is_some(),
                     text0: show_entry(&entry, 0),
                 })
             }
@@ -324,34 +328,75 @@ fn tree_rec(node: EntriesTreeNode<R>, full: bool, out: &mut Vec<String>) -> Resu
     Ok(())
 }
 
-/// the tree recursion when the caller does not iterate the children of every node
-fn tree_rec_sel(node: EntriesTreeNode<R>, out: &mut Vec<String>) -> Result<(), gimli::Error> {
-    let descend = {
+/// selection strategies of the partial traversals — the same function as sel_of_key in ocaml/s_c02.ml.
+/// None: the children are not requested; Some(n): stop after n children and return to the parent's list.
+fn mix8(off: u64, tag: u64, key: u64) -> u64 {
+    let mut x = off.wrapping_mul(0x9E3779B97F4A7C15) ^ tag.wrapping_mul(0xC2B2AE3D27D4EB4F) ^ key.wrapping_mul(0x165667B19E3779F9);
+    x ^= x >> 29;
+    x = x.wrapping_mul(0xBF58476D1CE4E5B9);
+    x ^= x >> 32;
+    (x >> 40) & 7
+}
+
+fn sel_raw(off: usize, depth: isize, tag: u16, has_children: bool, has_sib: bool, key: u64) -> Option<usize> {
+    let all = Some(usize::MAX);
+    let bare = depth > 0 && has_children && !has_sib;
+    if key == 0 {
+        return if off % 3 == 0 { None } else { all };
+    }
+    match key & 3 {
+        1 => if bare { None } else { all },
+        2 => if bare { Some(1) } else { all },
+        _ => match mix8(off as u64, tag as u64, key) {
+            0 | 1 => None,
+            2 => Some(0),
+            3 => Some(1),
+            4 => Some(2),
+            _ => all,
+        },
+    }
+}
+
+fn sel(e: &DebuggingInformationEntry<R>, depth: isize, key: u64) -> Option<usize> {
+    sel_raw(e.offset().0, depth, e.tag().0, e.has_children(), e.attr(gimli::DW_AT_sibling).is_some(), key)
+}
+
+/// the tree recursion when the caller does not iterate the children of every node, or stops part-way
+/// through a child list
+fn tree_rec_sel(node: EntriesTreeNode<R>, key: u64, out: &mut Vec<String>) -> Result<(), gimli::Error> {
+    let s = {
         let e = node.entry();
         out.push(format!("{}:{}", e.offset().0, e.depth()));
-        e.offset().0 % 3 != 0
+        sel(e, e.depth(), key)
     };
-    if !descend {
-        return Ok(());
-    }
+    let Some(n) = s else { return Ok(()) };
     let mut ch = node.children();
-    while let Some(child) = ch.next()? {
-        tree_rec_sel(child, out)?;
+    let mut left = n;
+    while left > 0 {
+        left -= 1;
+        match ch.next()? {
+            Some(child) => tree_rec_sel(child, key, out)?,
+            None => break,
+        }
     }
     Ok(())
 }
 
-fn style_skip(h: &UnitHeader<R>, tbl: &Abbreviations) -> String {
+fn style_skip_one(h: &UnitHeader<R>, tbl: &Abbreviations, key: u64) -> String {
     let mut tree = match h.entries_tree(tbl, None) {
         Ok(t) => t,
         Err(e) => return format!("!{}", errname(&e)),
     };
     let mut out = Vec::new();
     let r = match tree.root() {
-        Ok(root) => tree_rec_sel(root, &mut out),
+        Ok(root) => tree_rec_sel(root, key, &mut out),
         Err(e) => Err(e),
     };
     with_err(",", out, r.err())
+}
+
+fn style_skip(h: &UnitHeader<R>, tbl: &Abbreviations, key: u64) -> String {
+    format!("{}|{}", style_skip_one(h, tbl, 0), style_skip_one(h, tbl, key))
 }
 
 fn style_tree(h: &UnitHeader<R>, tbl: &Abbreviations, off: Option<usize>, full: bool, sep: &str) -> String {
@@ -367,20 +412,30 @@ fn style_tree(h: &UnitHeader<R>, tbl: &Abbreviations, off: Option<usize>, full: 
     with_err(sep, out, r.err())
 }
 
-/// recursive walk with cloned cursors: next_entry to the first child, next_sibling along the list
-fn sibwalk(c: &EntriesCursor<R>, level: isize, out: &mut Vec<String>) -> Result<(), gimli::Error> {
-    let (has_children, text) = match c.current() {
-        Some(e) => (e.has_children(), format!("{}:{}:{}", e.offset().0, level, e.tag().0)),
+/// recursive walk with cloned cursors: next_entry to the first child, next_sibling along the list;
+/// `key` = None visits everything, Some(k) applies the selection strategy k
+fn sibwalk(c: &EntriesCursor<R>, level: isize, key: Option<u64>, out: &mut Vec<String>) -> Result<(), gimli::Error> {
+    let (has_children, text, s) = match c.current() {
+        Some(e) => (
+            e.has_children(),
+            format!("{}:{}:{}", e.offset().0, level, e.tag().0),
+            match key {
+                Some(k) => sel(e, e.depth(), k),
+                None => Some(usize::MAX),
+            },
+        ),
         None => return Ok(()),
     };
     out.push(text);
-    if has_children {
+    if let (true, Some(n)) = (has_children, s) {
         let mut k = c.clone();
         if !k.next_entry()? {
             return Ok(());
         }
-        while k.current().is_some() {
-            sibwalk(&k, level + 1, out)?;
+        let mut left = n;
+        while k.current().is_some() && left > 0 {
+            left -= 1;
+            sibwalk(&k, level + 1, key, out)?;
             if k.next_sibling()?.is_none() {
                 break;
             }
@@ -389,7 +444,7 @@ fn sibwalk(c: &EntriesCursor<R>, level: isize, out: &mut Vec<String>) -> Result<
     Ok(())
 }
 
-fn style_walk(h: &UnitHeader<R>, tbl: &Abbreviations) -> String {
+fn style_walk_one(h: &UnitHeader<R>, tbl: &Abbreviations, key: Option<u64>) -> String {
     let mut out = Vec::new();
     let mut c = h.entries(tbl);
     let r = (|| -> Result<(), gimli::Error> {
@@ -397,7 +452,7 @@ fn style_walk(h: &UnitHeader<R>, tbl: &Abbreviations) -> String {
             return Ok(());
         }
         while c.current().is_some() {
-            sibwalk(&c, 0, &mut out)?;
+            sibwalk(&c, 0, key, &mut out)?;
             if c.next_sibling()?.is_none() {
                 break;
             }
@@ -405,6 +460,36 @@ fn style_walk(h: &UnitHeader<R>, tbl: &Abbreviations) -> String {
         Ok(())
     })();
     with_err(";", out, r.err())
+}
+
+fn style_walk(h: &UnitHeader<R>, tbl: &Abbreviations, key: u64) -> String {
+    format!("{}|{}", style_walk_one(h, tbl, None), style_walk_one(h, tbl, Some(key)))
+}
+
+/// what a partial traversal has to report, computed from the raw entry sequence alone: entry i, then —
+/// if selected — its first n children (the entries one level deeper up to the null closing the list)
+fn expect_sel(ents: &[Ent], i: usize, key: Option<u64>, with_tag: bool, out: &mut Vec<String>) {
+    let x = &ents[i];
+    out.push(if with_tag { format!("{}:{}:{}", x.off, x.depth, x.tag) } else { format!("{}:{}", x.off, x.depth) });
+    let s = match key {
+        Some(k) => sel_raw(x.off, x.depth, x.tag, x.children, x.has_sib, k),
+        None => Some(usize::MAX),
+    };
+    let Some(n) = s else { return };
+    if !x.children {
+        return;
+    }
+    let mut left = n;
+    let mut j = i + 1;
+    while left > 0 && j < ents.len() && ents[j].depth == x.depth + 1 && !ents[j].null {
+        left -= 1;
+        expect_sel(ents, j, key, with_tag, out);
+        let d = ents[j].depth;
+        j += 1;
+        while j < ents.len() && ents[j].depth > d {
+            j += 1;
+        }
+    }
 }
 
 fn sample_indices(n: usize) -> Vec<usize> {
@@ -439,7 +524,7 @@ fn per_off(offsets: &[usize], f: &mut dyn FnMut(usize) -> String) -> String {
 }
 
 /// every navigation style over one unit; `nav` = malformed-input mode (every byte offset, no oracle)
-fn styles(h: &UnitHeader<R>, tbl: &Abbreviations, nav: bool) -> Styles {
+fn styles(h: &UnitHeader<R>, tbl: &Abbreviations, nav: bool, key: u64) -> Styles {
     let (raw_ents, raw_err) = style_raw(h, tbl);
     let raw = with_err(";", ents_text(&raw_ents), raw_err.clone());
     let ent = style_ent(h, tbl);
@@ -461,9 +546,9 @@ fn styles(h: &UnitHeader<R>, tbl: &Abbreviations, nav: bool) -> Styles {
         sample_indices(nonnull.len()).iter().map(|&i| nonnull[i].1.off).collect()
     };
     let sib = per_off(&offsets, &mut |o| style_sib_at(h, tbl, o));
-    let walk = if nav { String::new() } else { style_walk(h, tbl) };
+    let walk = if nav { String::new() } else { style_walk(h, tbl, key) };
     let tree = style_tree(h, tbl, None, true, ";");
-    let skip = style_skip(h, tbl);
+    let skip = style_skip(h, tbl, key);
     let at = per_off(&offsets, &mut |o| match h.entry(tbl, UnitOffset(o)) {
         Ok(e) => show_entry(&e, e.depth()),
         Err(e) => format!("!{}", errname(&e)),
@@ -544,40 +629,27 @@ fn styles(h: &UnitHeader<R>, tbl: &Abbreviations, nav: bool) -> Styles {
                     }
                 }
                 bad("tree", &join(";", &tr), &tree);
-                // subtrees of entries whose offset is a multiple of 3 are not visited
-                let mut sk = Vec::new();
-                let mut skip_below: Option<isize> = None;
-                for (n, x) in raw_ents.iter().enumerate() {
-                    if n > 0 && x.depth <= first.depth {
-                        break;
-                    }
-                    if let Some(sd) = skip_below {
-                        if x.depth > sd {
-                            continue;
-                        }
-                        skip_below = None;
-                    }
-                    if x.null {
-                        continue;
-                    }
-                    sk.push(format!("{}:{}", x.off, x.depth));
-                    if x.off % 3 == 0 {
-                        skip_below = Some(x.depth);
-                    }
-                }
-                bad("skip", &join(",", &sk), &skip);
+                // partial traversals: strategy 0 and strategy `key`
+                let mut sk0 = Vec::new();
+                expect_sel(&raw_ents, 0, Some(0), false, &mut sk0);
+                let mut sk1 = Vec::new();
+                expect_sel(&raw_ents, 0, Some(key), false, &mut sk1);
+                bad("skip", &format!("{}|{}", join(",", &sk0), join(",", &sk1)), &skip);
             }
         }
+        // the clone walk visits every top-level entry up to the first null: everything, and strategy `key`
         let mut wk = Vec::new();
-        for x in &raw_ents {
-            if x.depth < 0 || (x.depth == 0 && x.null) {
-                break;
-            }
-            if !x.null {
-                wk.push(format!("{}:{}:{}", x.off, x.depth, x.tag));
+        let mut wk1 = Vec::new();
+        let mut j = 0;
+        while j < raw_ents.len() && raw_ents[j].depth == 0 && !raw_ents[j].null {
+            expect_sel(&raw_ents, j, None, true, &mut wk);
+            expect_sel(&raw_ents, j, Some(key), true, &mut wk1);
+            j += 1;
+            while j < raw_ents.len() && raw_ents[j].depth > 0 {
+                j += 1;
             }
         }
-        bad("walk", &join(";", &wk), &walk);
+        bad("walk", &format!("{}|{}", join(";", &wk), join(";", &wk1)), &walk);
     }
     Styles { raw, ent, dfs, sib, walk, tree, skip, at, from, sub, oracle }
 }
@@ -607,7 +679,8 @@ fn forest(t: &[&str], nav: bool) -> String {
         Ok(t) => t,
         Err(e) => return format!("abbrev!{} {} abbrev=!{}", errname(&e), hdr, errname(&e)),
     };
-    let s = styles(&h, &tbl, nav);
+    let key: u64 = t.get(5).and_then(|k| k.parse().ok()).unwrap_or(0);
+    let s = styles(&h, &tbl, nav, key);
     if let Some(o) = s.oracle {
         return o;
     }
@@ -692,7 +765,10 @@ fn corpus(t: &[&str]) -> String {
             Ok(t) => t,
             Err(e) => return Some(format!("corpus-mismatch {} abbreviations {}", v, err(&e))),
         };
-        let s = styles(&h, &tbl, false);
+        // partial traversals of compiler output: the on-purpose strategies and a hashed one, by unit
+        let key = (h.length_including_self() as u64) | 1;
+        let key = if key % 8 == 7 { key } else { (key & !3) | (1 + (key >> 3) % 2) };
+        let s = styles(&h, &tbl, false, key);
         if s.raw.contains('!') {
             return Some(format!("corpus-mismatch {} unit {} raw error", v, h.offset().0));
         }
